@@ -513,7 +513,15 @@ func (e *Engine) FullQueryCheck(tx *Tx, pageSizes []uint64) {
 		odd("offset-at-end", &query.PageRequest{Offset: uint64(n), Limit: 3, CountTotal: true}, nil, n)
 		odd("offset-beyond-end", &query.PageRequest{Offset: uint64(n) + 7, Limit: 3, CountTotal: true}, nil, n)
 		odd("offset-last", &query.PageRequest{Offset: uint64(max(n-1, 0)), Limit: 5}, fwd[max(n-1, 0):], -1)
-		odd("huge-limit", &query.PageRequest{Limit: 1 << 62}, fwd, -1)
+		// (page sizes far above n+1 are outside the property's quantifier: cosmos-sdk's Paginate computes offset+limit in
+		// 64 bits, so {offset >= 1, limit near 2^64} returns an empty page on the unchanged tree - not judged here)
+		odd("limit-n+1", &query.PageRequest{Limit: uint64(n) + 1}, fwd, -1)
+		for _, off := range []int{1, 2, n / 2, n - 1} {
+			if off >= 1 && off < n {
+				odd(fmt.Sprintf("offset-%s-default-limit", map[bool]string{true: "1", false: "k"}[off == 1]), &query.PageRequest{Offset: uint64(off)}, first(fwd[off:], 100), -1)
+				odd("offset-with-limit-n+1", &query.PageRequest{Offset: uint64(off), Limit: uint64(n) + 1}, fwd[off:], -1)
+			}
+		}
 		if n >= 2 {
 			// continue from the key that a one-item page hands out, with count_total set as well
 			if _, pr, err := l.fetch(&query.PageRequest{Limit: 1}); err == nil && pr != nil && len(pr.NextKey) > 0 {
